@@ -376,7 +376,7 @@ class C18(Check):
                     elif k == 'stale':
                         # a control loop delivers an output it calculated before (it may have lost control meanwhile)
                         name = f'ctl{op["c"] % shape["nctl"]}'
-                        sim.count('c18.stale-controller-output', 'c18.second-output-op')
+                        sim.count('c18.stale-controller-output')
                         out.update_target(name, op['v'])
                     elif k == 'ctlpair':
                         sim.count('c18.concurrent-takeover')
